@@ -126,7 +126,9 @@ def main(chk):
         walks, plan = graph.plan_tours(g, c["depth"], rng)
         extra = graph.random_walks(g, 150 if chk.quick else 1500, c["depth"], rng)
         drv = c["drv"]
-        st, mism = graph.replay(g, walks + extra, lambda wid, wd, drv=drv: SeqDriver(wid, wd, drv), os.path.join(chk.work, "replay%d" % i), nproc=W)
+        # in-process on purpose: one step costs ~30 us here, while forked workers pay copy-on-write for every reference count they
+        # touch in the inherited state graph (measured 20-40x slower per step, most of it system time)
+        st, mism = graph.replay(g, walks + extra, lambda wid, wd, drv=drv: SeqDriver(wid, wd, drv), os.path.join(chk.work, "replay%d" % i), nproc=1)
         steps += st
         nwalks += len(walks) + len(extra)
         detail.append({"config": c["label"], "distinct": r.distinct, "generated": r.generated, "edges": len(g.edges),
